@@ -477,7 +477,7 @@ func checkC08(r *kit.Run) {
 	if err != nil {
 		r.Fatal("FmtLayout dump: %v", err)
 	}
-	if canary == 0 || caught != canary {
+	if (canary == 0 && r.Violations() == 0) || caught != canary {
 		r.Fatal("canary: %d of %d altered files have a different tree", caught, canary)
 	}
 	// ---- the repository's own sources and their whitespace / comment mutants ----
